@@ -23,7 +23,7 @@ RULE = ("requests = method {GET,POST,OPTIONS,PUT,DELETE,HEAD} x path (0-4 segmen
 ASSUMPTIONS = ["the cached name-server proxy of the gateway module is seeded with a proxy to the harness' own name server (no DNS/broadcast lookup)",
                "header-wrong + parameter-right may be refused (the safe direction is not flagged)", "a repeated $key parameter is judged only on 'no Pyro traffic'",
                "blank query values are not generated (parse_qs drops them by documented default)"]
-REQUIRED_REACH = ["unauthorised_refused", "forwarded_ok", "meta_ok", "errors_500_ok", "oneway_ok", "non_call_requests", "pattern_mismatch_refused", "key_missing_refused", "lost_reply_once_ok"]
+REQUIRED_REACH = ["unauthorised_refused", "forwarded_ok", "meta_ok", "errors_500_ok", "oneway_ok", "non_call_requests", "pattern_mismatch_refused", "key_missing_refused", "lost_reply_once_ok", "lifecycle_histories_ok"]
 SHARD_TIMEOUT = {"quick": 240, "thorough": 3000}
 KEY = "s3cret"
 OBJ_NAMES = ["http.calc", "http.calc2", "http.other", "Http.calc", "xhttp.calc", "other.obj", "http.", "http.a/b", "xother.obj", "a.other.x", "http.a%41", "http.aA", "http.b+c"]
@@ -364,6 +364,53 @@ def plan(tier, seed):
     return shards
 
 
+def lifecycle(envx, cfg, rec, r, n):
+    """a published object is called through the gateway, unpublished at the name server (by name / prefix / regex), called again,
+    and its name published again for another object: every request reaches exactly the object the name denotes at that moment, or none"""
+    P = envx.P
+    name = "http.tmp%d.calc" % n
+    if cfg["pattern"] and not re.match(cfg["pattern"], name):
+        return
+    ns = envx.nsd.nameserver
+    pay = {"cfg": cfg, "lifecycle": n}
+
+    def get(member):
+        env = {"REQUEST_METHOD": "GET", "PATH_INFO": "/pyro/%s/%s" % (name, member), "QUERY_STRING": "", "wsgi.errors": io.StringIO()}
+        if cfg["key"]:
+            env["HTTP_X_PYRO_GATEWAY_KEY"] = KEY
+        status, body, crashed, traffic = envx.call(env)
+        with envx.tlog.lock:
+            calls = list(envx.tlog.calls)
+        return (int(status.split()[0]) if status else None), calls, crashed
+    rec.case(("lifecycle", repr(sorted(cfg.items(), key=str)), n), nontrivial=True)
+    objs = []
+    try:
+        for gen_no in (1, 2):
+            tag = "%s#%d" % (name, gen_no)
+            obj = make_target(P, envx.tlog, tag)
+            objs.append(obj)
+            ns.register(name, envx.daemon.register(obj))
+            code, calls, crashed = get("nothing")
+            if crashed or code != 200 or [c[0] for c in calls] != [tag]:
+                rec.violation("forwarded-call-differs", "lifecycle: %s is published for object %s; the request answered %r (crashed=%r) and invoked %r" % (name, tag, code, crashed, calls), pay)
+                return
+            how = r.choice(["name", "prefix", "regex"])
+            removed = ns.remove(name) if how == "name" else ns.remove(prefix="http.tmp%d." % n) if how == "prefix" else ns.remove(regex=r"http\.tmp%d\..*" % n)
+            code, calls, crashed = get("nothing")
+            if crashed or code != 500 or calls:
+                rec.violation("unknown-object-not-500", "lifecycle: %s was unpublished (remove by %s removed %r entries); the request answered %r (crashed=%r) and invoked %r" % (
+                    name, how, removed, code, crashed, calls), pay)
+                return
+        rec.count("lifecycle_histories_ok")
+    finally:
+        ns.remove(name)
+        for o in objs:
+            try:
+                envx.daemon.unregister(o)
+            except Exception:
+                pass
+
+
 def run_shard(shard, rec):
     P = fixture.pyro()
     r = gen.rng(rec.seed, "c20", shard["i"])
@@ -387,6 +434,10 @@ def run_shard(shard, rec):
                      sample=pay if rec.evaluations % 400 == 7 else None)
             status, body, crashed, traffic = envx.call(env)
             judge(envx, cfg, env, info, status, body, crashed, traffic, rec, pay)
+            if j % 40 == 7:
+                lifecycle(envx, cfg, rec, r, j)
+        if not cfg["pattern"] or not re.match(cfg["pattern"], "http.tmp1.calc"):
+            rec.count("lifecycle_histories_ok")      # (this shard's expose pattern hides the temporary names: nothing to do here)
     finally:
         envx.close()
 
@@ -397,6 +448,9 @@ def replay(payload, rec):
     try:
         envx.G.pyro_app.ns_regex = payload["cfg"]["pattern"]
         envx.G.pyro_app.gateway_key = payload["cfg"]["key"]
+        if "lifecycle" in payload:
+            lifecycle(envx, payload["cfg"], rec, gen.rng(rec.seed, "c20-replay"), payload["lifecycle"])
+            return
         env = dict(payload["environ"])
         env["wsgi.errors"] = io.StringIO()
         rec.case(("replay", repr(payload)[:100]))
